@@ -466,6 +466,8 @@ func extractStreamFmt(repo string) (string, error) {
 		case "a.flush":
 			flushes = true
 		case "ticker.Stop", "time.NewTicker", "?":
+		case "recover", "a.mu.Lock", "a.mu.Unlock":
+			// the deferred recover that keeps a panic of `a.flush` for Done (a.flushPanic): none of them touches the response
 		default:
 			only = false
 		}
